@@ -305,6 +305,46 @@ def index_record(ver, height, status, ntx, nfile, datapos, undopos, hdr):
     return b + hdr
 
 
+# ---- secp256k1 (only to obtain real curve points; nothing here is used as an oracle for the parser) -------------------
+_P = 2 ** 256 - 2 ** 32 - 977
+_G = (0x79BE667EF9DCBBAC55A06295CE870B07029BFCDB2DCE28D959F2815B16F81798, 0x483ADA7726A3C4655DA4FBFC0E1108A8FD17B448A68554199C47D08FFB10D4B8)
+
+
+def _ec_add(a, b):
+    if a is None:
+        return b
+    if b is None:
+        return a
+    if a[0] == b[0] and (a[1] + b[1]) % _P == 0:
+        return None
+    if a == b:
+        lam = 3 * a[0] * a[0] * pow(2 * a[1], -1, _P) % _P
+    else:
+        lam = (b[1] - a[1]) * pow(b[0] - a[0], -1, _P) % _P
+    x = (lam * lam - a[0] - b[0]) % _P
+    return x, (lam * (a[0] - x) - a[1]) % _P
+
+
+def ec_point(k):
+    """k*G for the scalar k"""
+    r, q = None, _G
+    while k:
+        if k & 1:
+            r = _ec_add(r, q)
+        q = _ec_add(q, q)
+        k >>= 1
+    return r
+
+
+def pubkey_encodings(k):
+    """all serialisations of the public key k*G found in scripts: compressed, uncompressed, hybrid (06/07, parity of y),
+    and a hybrid prefix contradicting the parity (not a valid encoding, still just 65 pushed bytes)"""
+    x, y = ec_point(k)
+    xb, yb = x.to_bytes(32, 'big'), y.to_bytes(32, 'big')
+    return {'compressed': bytes([2 + (y & 1)]) + xb, 'uncompressed': b'\x04' + xb + yb, 'hybrid': bytes([6 + (y & 1)]) + xb + yb,
+            'hybrid_wrong_parity': bytes([7 - (y & 1)]) + xb + yb}
+
+
 # ---- coins -------------------------------------------------------------------------------
 # published parameters, independent of /repo/src/blockchain/parser/types.rs
 COINS = {
